@@ -12,6 +12,7 @@ pub mod c11;
 pub mod c12;
 pub mod c13;
 pub mod c14;
+pub mod c16;
 
 pub fn all() -> Vec<&'static dyn Property> {
     vec![
@@ -27,5 +28,6 @@ pub fn all() -> Vec<&'static dyn Property> {
         &c12::C12,
         &c13::C13,
         &c14::C14,
+        &c16::C16,
     ]
 }
